@@ -348,3 +348,69 @@ func TestVerifC16PinnedDeactivationAfterPartialActivation(t *testing.T) {
 	}
 	settle(t, rec, "a revision deactivated after a partial activation / lost status / manual activation (reconciler: Establish control=false or ReleaseObjects via stale status.objectRefs) never gives up control of the deployed webhook configuration", known, first, other)
 }
+
+// TestVerifC16PinnedPostHookFails: the post-establish hook of a package with a
+// runtime fails (its deployment never becomes available) after Establish took
+// control of the package's objects. The status the reconcile writes must record
+// what the revision controls by then, because deactivation works from
+// status.objectRefs only; on rollback the deactivated revision must control
+// nothing and its predecessor must get everything back.
+//
+// Rows: first activation (no references recorded before); a revision that was
+// reconciled inactive first (manual activation) - its older references name the
+// webhook configuration by its static package name while the active revision
+// controls crossplane-<kind>-<package>; a successor adding a CRD.
+func TestVerifC16PinnedPostHookFails(t *testing.T) {
+	rec := verifkit.New(t, "C16", "pinned rows")
+	for _, fl := range flavours {
+		if !fl.Runtime {
+			continue
+		}
+		for _, manual := range []bool{false, true} {
+			for _, webhook := range []bool{false, true} {
+				t.Run(fmt.Sprintf("%s/inactive-first=%v/webhook=%v", fl.Kind, manual, webhook), func(t *testing.T) {
+					rec.Eval()
+					h := newHWorld(fl, fatal(t), 1, map[string]bool{"alpha": true, "beta": true})
+					r1 := []objSpec{{Kind: "CRD", Name: "widgets.acme.example.org", Variant: 1}}
+					r2 := []objSpec{{Kind: "CRD", Name: "widgets.acme.example.org", Variant: 2}, {Kind: "CRD", Name: "gadgets.acme.example.org", Variant: 1}}
+					if webhook {
+						r1 = append(r1, objSpec{Kind: "VWC", Name: namePool["VWC"][0], Variant: 1})
+						r2 = append(r2, objSpec{Kind: "VWC", Name: namePool["VWC"][0], Variant: 2})
+					}
+					h.addContent("alpha", "alpha-r1", r1)
+					h.addContent("alpha", "alpha-r2", r2)
+					h.addContent("alpha", "alpha-r3", r1[:1])
+					h.addContent("beta", "beta-r1", []objSpec{{Kind: "CRD", Name: "gizmos.acme.example.org", Variant: 1}})
+					h.switchTo("alpha-r1")
+					h.step(rec, "alpha-r1", nil)
+					if manual {
+						h.createRevision("alpha-r2", false)
+						h.logf("create alpha-r2 inactive")
+						h.step(rec, "alpha-r2", nil)
+						h.step(rec, "alpha-r2", nil)
+					}
+					h.switchTo("alpha-r2") // upgrade
+					h.step(rec, "alpha-r1", nil)
+					h.postDown["alpha-r2"] = true
+					for i := 0; i < 2; i++ {
+						h.step(rec, "alpha-r2", nil) // Establish succeeds, Post fails
+					}
+					if h.postFailedAfterEstablish != 2 {
+						t.Fatalf("harness: expected Establish to succeed and the post hook to fail twice, got %d\n%v", h.postFailedAfterEstablish, h.hist)
+					}
+					for _, k := range h.planKeys(h.revs["alpha-r2"]) {
+						h.mustBe(k, "alpha-r2", "alpha")
+					}
+					h.switchTo("alpha-r1") // rollback
+					h.step(rec, "alpha-r2", nil)
+					h.step(rec, "alpha-r2", nil)
+					h.step(rec, "alpha-r1", nil)
+					for _, k := range h.planKeys(h.revs["alpha-r1"]) {
+						h.mustBe(k, "alpha-r1", "alpha-r2", "alpha")
+					}
+					h.finish(rec)
+				})
+			}
+		}
+	}
+}
